@@ -2,6 +2,7 @@ import CstructModel.Sexp
 import CstructModel.Expr
 import CstructModel.Proto
 import CstructModel.Hexdump
+import CstructModel.Enum
 open Cstruct Cstruct.Proto
 
 def pairs? (s : Sexp) : Option (List (String × Int)) :=
@@ -147,6 +148,18 @@ def handle (s : Sexp) : Sexp :=
       match Hexdump.swap i s with
       | some w => .list [.atom "ok", .atom (toString w)]
       | none => .list [.atom "err", .atom "Error"]
+    | _, _ => .list [.atom "bad-args"]
+  -- (enumvals flag? consts ((name "expr" | name none) ...))
+  | .list [.atom "enumvals", fl, consts, .list ms] =>
+    let members : Option (List (String × Option String)) := ms.mapM fun (m : Sexp) => match m with
+      | Sexp.list [n, Sexp.atom "none"] => n.string?.map (·, none)
+      | Sexp.list [n, Sexp.str e] => n.string?.map (·, some e)
+      | _ => none
+    match pairs? consts, members with
+    | some cs, some mem =>
+      match Enum.enumValues (fl.nat? != some 0) cs mem with
+      | .ok vals => .list (.atom "ok" :: vals.map fun (k, v) => .list [.str k, .atom (toString v)])
+      | .error e => .list [.atom "err", .atom e.name]
     | _, _ => .list [.atom "bad-args"]
   | _ => .list [.atom "bad-op"]
 
